@@ -15,7 +15,7 @@ import collections
 
 from . import dims as D
 
-_PY = {"int": int, "str": str}
+_PY = {"int": int, "str": str, "float": float}
 
 Point = collections.namedtuple("Point", ["x", "y"])
 
@@ -82,6 +82,8 @@ def flat_match(spec, x, ARR):
         return isinstance(x, ARR)
     if k == "py":
         t = _PY[spec[1]]
+        if t is float:
+            return isinstance(x, (int, float))  # PEP 484 numeric tower, as the typechecker applies it
         return isinstance(x, t)
     if k == "tup":
         return isinstance(x, tuple) and len(x) == len(spec[1]) and all(
